@@ -14,6 +14,59 @@ import vlib
 from vlib import Broken
 
 
+def written_order_program(rng):
+    """-> (source, expected stdout): every probe prints its tag when evaluated; tags are numbered in the order written"""
+    n = [0]
+    out = []
+
+    def probe(ty="int32"):
+        n[0] += 1
+        t = "p%d" % n[0]
+        out.append(t)
+        return {"int32": 'pi("%s", %d)' % (t, n[0]), "bool": 'pb("%s", true)' % t, "string": 'ps("%s", "s")' % t}[ty]
+
+    def expr(d):
+        """an int32 expression"""
+        k = rng.randrange(11) if d > 0 else 0
+        if k == 0:
+            return probe()
+        if k == 1:
+            return "add3(%s, %s, %s)" % (expr(d - 1), expr(d - 1), expr(d - 1))
+        if k == 2:
+            return "(%s %s %s)" % (expr(d - 1), rng.choice(["+", "-", "*"]), expr(d - 1))
+        if k == 3:
+            a, b = expr(d - 1), expr(d - 1)
+            return "(%s, %s).%d" % (a, b, rng.randrange(2))
+        if k == 4:
+            a, b, c = expr(d - 1), expr(d - 1), expr(d - 1)
+            return "array_get([%s, %s, %s], %d)" % (a, b, c, rng.randrange(3))
+        if k == 5:
+            a = expr(d - 1)
+            b = probe("bool")
+            return "P { a: %s, b: %s }.a" % (a, b)   # declaration order
+        if k == 6:
+            a, b = probe("bool"), expr(d - 1)
+            return "(match C(%s, %s) { A => 0, B(n) => n, C(_, n) => n })" % (a, b)
+        if k == 7:
+            a, b = expr(d - 1), expr(d - 1)
+            return "P { a: %s, b: true }.sum2(%s)" % (a, b)   # receiver, then argument
+        if k == 8:
+            a, b = expr(d - 1), expr(d - 1)
+            return "vec_get(vec_push(vec_push(vec_new(), %s), %s), 1)" % (a, b)
+        if k == 9:
+            a, b = probe("string"), probe("string")
+            return "string_len(%s + %s)" % (a, b)
+        a, b = expr(d - 1), expr(d - 1)
+        return "Tick::addq(%s, %s)" % (a, b)
+
+    stmts = ["    let _ = %s;" % expr(rng.choice([1, 2, 2, 3])) for _ in range(rng.randint(1, 3))]
+    import genprog
+
+    src = (genprog.PRELUDE + "fn add3(a: int32, b: int32, c: int32) -> int32 { a + b + c }\nimpl P { fn sum2(self: P, n: int32) -> int32 { self.a + n } }\n"
+           "trait Tick2 { fn addq(Self, int32) -> int32; }\nimpl Tick2 for int32 { fn addq(self: int32, n: int32) -> int32 { self + n } }\nfn main() {\n" + "\n".join(stmts).replace("Tick::addq", "Tick2::addq") + "\n    ()\n}\n")
+    return src, ("".join(t + "\n" for t in out)).encode()
+
+
 def anf_stage(run, srcs, wits, broken):
     """the model of anf.rs (C09/Anf.v, about which the order theorem is proved) against the A-normal form the compiler built,
     function by function; and the order of operations of the real A-normal form against the lifted source (C09/Order.v)"""
@@ -85,8 +138,29 @@ def check(run):
         astats = anf_stage(run, srcs, wits, broken)
     except Broken as b:
         broken.append(b)
+    # ---- the order as WRITTEN: an oracle computed from the source text (the typed tree is already elaborated) ----------
+    wstats = {}
+    try:
+        wrng = run.sub_rng("C09-written")
+        wcases = [written_order_program(wrng) for _ in range(40 if run.tier == "quick" else 600)]
+        wroot, wpaths = semrun.write_programs("c09w", [c[0] for c in wcases])
+        wres = semrun.compare("c09w", wpaths, src_stage="tast", expected=[c[1] for c in wcases])
+        wstats = {"programs": len(wcases), "printed_in_written_order": 0}
+        for (src, exp), r in zip(wcases, wres):
+            if r["status"] == "agree" and r.get("matches_recorded_output"):
+                wstats["printed_in_written_order"] += 1
+            elif r["status"] in ("agree", "differ", "go-stuck", "panic"):
+                wits.append({"kind": "operands are not evaluated in the order written (expected output computed from the source text)" if r["status"] == "agree" else "written-order program: " + r["status"], "program": src, "expected_stdout": exp.decode()})
+        shutil.rmtree(wroot, ignore_errors=True)
+    except Broken as b:
+        broken.append(b)
     for k in run.known:
         p = os.path.join(vlib.VERIF, k["replay"]["program"])
+        if k["replay"]["kind"] == "written-order":
+            r = semrun.compare("c09kf", [p], src_stage="tast", expected=[k["replay"]["expected"].encode()])[0]
+            if r["status"] == "agree" and not r.get("matches_recorded_output"):
+                run.known_finding(k["id"], "%s: %s (%s)" % (k["id"], k["what"], k["replay"]["program"]))
+            continue
         r = semrun.compare("c09kf", [p], src_stage="tast")[0]
         if r["status"] == "differ":
             run.known_finding(k["id"], "%s: %s (%s)" % (k["id"], k["what"], k["replay"]["program"]))
@@ -99,7 +173,11 @@ def check(run):
         "and a systematic matrix of 9 kinds of unit-typed effect expressions x 10 statement positions (last/middle of a while body, if/else/match branches, last in a function or closure body, let _ =); failing operations (division by zero, out-of-range vec_get) at an 8% rate; the order and multiplicity of output lines and the point of failure of the real Go AST (after ANF, Go generation and DCE) must equal those of the typed source program "
         "under the Coq semantics. The right operand of && / || is kept effect-free (known finding). distinct_nontrivial = agreeing completed runs"
     )
-    run.cov["correspondence"] = {"generated": stats, "anf_model": astats}
+    run.cov["correspondence"] = {"generated": stats, "anf_model": astats, "written_order": wstats}
+    run.cov["rule"] += (
+        ". Written order: programs whose operands (call and method arguments, receivers, binary operands, tuple/array/constructor/struct-literal components, nested) are printing probes; the expected output is computed from the "
+        "source TEXT (left to right as written) and the emitted Go must print exactly that (struct literals are written in declaration order: out-of-order fields are a known finding)"
+    )
     run.cov["rule"] += (
         ". ANF stage: for every function of every generated and corpus program the Coq model of anf.rs (C09/Anf.v) is run on the real lifted body with the real start value of the temporary counter "
         "and must equal, node for node and name for name, the A-normal form the compiler built; independently the operation trace (C09/Order.v) of the real A-normal form must equal that of the lifted source"
